@@ -1,4 +1,5 @@
 import SamVerif.Model.FmtFull
+import SamVerif.Model.FmtPat
 import Driver.C08Legacy
 import Driver.Util
 /-! Protocol `fmt-expr` (C08), model side.
@@ -33,7 +34,7 @@ partial def lexWords : List Char → List String → Option (List String)
     if c == ' ' || c == '\n' || c == '\t' then lexWords rest acc
     else if c == '-' && rest.head? == some '>' then lexWords (rest.drop 1) ("->" :: acc)
     else if c == '(' || c == ')' || c == '+' || c == '*' || c == '/' || c == '%' || c == '-'
-        || c == '{' || c == '}' || c == ',' || c == '.' || c == '_' then
+        || c == '{' || c == '}' || c == ',' || c == '.' || c == '_' || c == ';' then
       lexWords rest (c.toString :: acc)
     else if c.isDigit then
       let ds := (c :: rest).takeWhile Char.isDigit
@@ -49,14 +50,18 @@ partial def lexWords : List Char → List String → Option (List String)
       | '>', '=' :: r => lexWords r (">=" :: acc)
       | '>', r => lexWords r (">" :: acc)
       | '=', '=' :: r => lexWords r ("==" :: acc)
+      | '=', r => lexWords r ("=" :: acc)
       | '&', '&' :: r => lexWords r ("&&" :: acc)
       | '|', '|' :: r => lexWords r ("||" :: acc)
+      | '|', r => lexWords r ("|" :: acc)
       | ':', ':' :: r => lexWords r ("::" :: acc)
+      | ':', r => lexWords r (":" :: acc)
       | _, _ => none
 
 def isNum (s : String) : Bool := !s.isEmpty && s.toList.all Char.isDigit
 def isWordAtom (s : String) : Bool :=
   !s.isEmpty && (s.toList.head!.isAlphanum || s.startsWith "-2") && s != "if" && s != "match" && s != "else"
+    && s != "let" && s != "as"
 def isLowerId (s : String) : Bool := !s.isEmpty && s.toList.head!.isLower && s.toList.all Char.isAlphanum
 def isUpperId (s : String) : Bool := !s.isEmpty && s.toList.head!.isUpper
 
@@ -94,27 +99,119 @@ def commaList (ok : String → Bool) : List String → Option (List String × Li
 
 def isTypeWord (s : String) : Bool := s == "int" || s == "bool" || s == "unit" || isUpperId s
 
+/-! ### `P` lines: patterns through `Model/FmtPat.lean` -/
+section Patterns
+open SamVerif.FmtPat
+
+def internS (tab : List String) (s : String) : List String × Nat :=
+  match tab.idxOf? s with
+  | some i => (tab, i)
+  | none => (tab ++ [s], tab.length)
+
+def ptoks (words : List String) : List PTok × List String :=
+  words.foldl (fun (acc : List PTok × List String) w =>
+    let (ts, tab) := acc
+    let named (mk : Nat → PTok) := let (tb, i) := internS tab w; (ts ++ [mk i], tb)
+    if w == "(" then (ts ++ [.lp], tab) else if w == ")" then (ts ++ [.rp], tab)
+    else if w == "{" then (ts ++ [.lb], tab) else if w == "}" then (ts ++ [.rb], tab)
+    else if w == "," then (ts ++ [.comma], tab) else if w == "|" then (ts ++ [.bar], tab)
+    else if w == "_" then (ts ++ [.us], tab) else if w == "as" then (ts ++ [.kwAs], tab)
+    else if isLowerId w then named .lower else if isUpperId w then named .upper else named .other) ([], [])
+
+def ptokText (tab : List String) : PTok → String
+  | .lp => "(" | .rp => ")" | .lb => "{" | .rb => "}" | .comma => "," | .bar => "|" | .us => "_" | .kwAs => "as"
+  | .lower n | .upper n | .other n => tab.getD n "?"
+
+mutual
+partial def dumpP (tab : List String) : Pat → String
+  | .id n => s!"(pid {tab.getD n "?"})"
+  | .wild => "_"
+  | .variant t => s!"(pvariant {tab.getD t "?"})"
+  | .variantT t ps => s!"(pvariant {tab.getD t "?"} (ptuple{dumpPs tab ps}))"
+  | .tuple ps => s!"(ptuple{dumpPs tab ps})"
+  | .obj fs => s!"(pobj{dumpFs tab fs})"
+partial def dumpO (tab : List String) : OPat → String
+  | .one p => dumpP tab p
+  | .alt p rest => "(por " ++ dumpP tab p ++ dumpAlts tab rest ++ ")"
+partial def dumpAlts (tab : List String) : OPat → String
+  | .one p => " " ++ dumpP tab p
+  | .alt p rest => " " ++ dumpP tab p ++ dumpAlts tab rest
+partial def dumpPs (tab : List String) : Pats → String
+  | .one o => " " ++ dumpO tab o
+  | .cons o rest => " " ++ dumpO tab o ++ dumpPs tab rest
+partial def dumpFs (tab : List String) : Fields → String
+  | .oneS f => s!" ({tab.getD f "?"} short (pid {tab.getD f "?"}))"
+  | .oneA f o => s!" ({tab.getD f "?"} as {dumpO tab o})"
+  | .consS f rest => s!" ({tab.getD f "?"} short (pid {tab.getD f "?"}))" ++ dumpFs tab rest
+  | .consA f o rest => s!" ({tab.getD f "?"} as {dumpO tab o})" ++ dumpFs tab rest
+end
+
+/-- the lexer splits `||`; inside patterns two bars never meet, so `||` is not a pattern token. -/
+def stepP (text : String) : String :=
+  match lexWords text.toList [] with
+  | none => "perr"
+  | some words =>
+    if words.any (· == "||") then "perr" else
+    let (ts, tab) := ptoks words
+    -- `= x ;` follows the pattern in the wrapped statement
+    match parsePattern (ts ++ [.other 1000000]) with
+    | some (o, [.other 1000000]) =>
+      let out := printO o
+      let outText := " ".intercalate (out.map (ptokText tab))
+      let t1 := match parsePattern (out ++ [.other 1000000]) with
+        | some (o2, [.other 1000000]) => dumpO tab o2
+        | _ => "rerr"
+      s!"{dumpO tab o};{outText};{t1};rt={if t1 == dumpO tab o then 1 else 0}"
+    | _ => "perr"
+end Patterns
+
 /-- words → model tokens. -/
 partial def group : List String → List Tok → Tab → Option (List Tok × Tab)
   | [], acc, tab => some (acc, tab)
   | w :: rest, acc, tab =>
     let push (t : Tok) (r : List String) (tb : Tab) := group r (acc ++ [t]) tb
-    -- match patterns: `U ( v ) ->`, `U ->`, `_ ->`
+    -- match-case patterns: anything the pattern model reads from here that is followed by `->`, when
+    -- it starts with a tag, `_` or `{` (a `(` … `) ->` is taken for a lambda parameter list)
     let patOf : Option (String × String × List String) :=
-      match w, rest with
-      | "_", "->" :: r => some ("_ ->", "_", r)
-      | u, "(" :: v :: ")" :: "->" :: r =>
-        if isUpperId u && (isLowerId v || v == "_") then
-          some (s!"{u} ( {v} ) ->", s!"(pvariant {u} (ptuple {if v == "_" then "_" else s!"(pid {v})"}))", r)
-        else none
-      | u, "->" :: r => if isUpperId u then some (s!"{u} ->", s!"(pvariant {u})", r) else none
-      | _, _ => none
+      if isUpperId w || w == "_" || w == "{" then
+        let all := w :: rest
+        let (pts, ptab) := ptoks all
+        match SamVerif.FmtPat.parsePattern pts with
+        | some (o, remToks) =>
+          match all.drop (all.length - remToks.length) with
+          | "->" :: r =>
+            some (" ".intercalate ((SamVerif.FmtPat.printO o).map (ptokText ptab)) ++ " ->", dumpO ptab o, r)
+          | _ => none
+        | none => none
+      else none
     match patOf with
     | some (text, dmp, r) =>
       let (tb, i) := intern tab ⟨text, dmp, ""⟩
       push (.pat i) r tb
     | none =>
-    if w == "if" then push .kwIf rest tab
+    if w == "let" then
+      -- `let pattern [: type] =` is one unit; the pattern goes through `Model/FmtPat.lean`
+      let before := rest.takeWhile (· != "=")
+      let after := rest.dropWhile (· != "=")
+      match after with
+      | "=" :: r =>
+        let patWords := before.takeWhile (· != ":")
+        let tyWords := (before.dropWhile (· != ":")).drop 1
+        let (pts, ptab) := ptoks patWords
+        match SamVerif.FmtPat.parsePattern (pts ++ [.other 1000000]) with
+        | some (o, [.other 1000000]) =>
+          let ptext := " ".intercalate ((SamVerif.FmtPat.printO o).map (ptokText ptab))
+          let tyOk := tyWords.isEmpty || (tyWords.length == 1 && tyWords.all isTypeWord)
+          if !tyOk then none else
+          let tyText := if tyWords.isEmpty then "" else " : " ++ tyWords.head!
+          let tyDump := if tyWords.isEmpty then "" else
+            " : " ++ (if isUpperId tyWords.head! then s!"(tid {tyWords.head!})" else tyWords.head!)
+          let (tb, i) := intern tab ⟨s!"let {ptext}{tyText} =", s!"(let {dumpO ptab o}{tyDump} ", ")"⟩
+          push (.letK i) r tb
+        | _ => none
+      | _ => none
+    else if w == ";" then push .semi rest tab
+    else if w == "if" then push .kwIf rest tab
     else if w == "else" then push .kwElse rest tab
     else if w == "match" then push .kwMatch rest tab
     else if w == "{" then push .lb rest tab
@@ -155,28 +252,34 @@ def ent (tab : Tab) (i : Nat) : Entry := (tab[i]?).getD ⟨"?", "?", "?"⟩
 
 def tokText (tab : Tab) : Tok → String
   | .lp => "(" | .rp => ")" | .bang => "!" | .comma => "," | .lb => "{" | .rb => "}"
-  | .kwIf => "if" | .kwElse => "else" | .kwMatch => "match"
+  | .kwIf => "if" | .kwElse => "else" | .kwMatch => "match" | .semi => ";"
   | .op o => opText o
-  | .atom a | .post a _ | .pat a | .lam a => (ent tab a).text
+  | .atom a | .post a _ | .pat a | .lam a | .letK a => (ent tab a).text
 
 mutual
 partial def dump (tab : Tab) : Expr → String
   | .atom a => (ent tab a).pre
   | .tuple e es => "(tuple " ++ dump tab e ++ dumpArgs tab es ++ ")"
-  | .block e => "(block (final " ++ dump tab e ++ "))"
+  | .block b => dumpBlk tab b
   | .post e p _ => (ent tab p).pre ++ dump tab e ++ (ent tab p).suf
   | .call0 f => "(call " ++ dump tab f ++ ")"
   | .call f args => "(call " ++ dump tab f ++ dumpArgs tab args ++ ")"
   | .unary .not e => "(! " ++ dump tab e ++ ")"
   | .unary .neg e => "(neg " ++ dump tab e ++ ")"
   | .binary o l r => "(" ++ opText o ++ " " ++ dump tab l ++ " " ++ dump tab r ++ ")"
-  | .ifElse c t e =>
-    "(if " ++ dump tab c ++ " (block (final " ++ dump tab t ++ ")) (block (final " ++ dump tab e ++ ")))"
+  | .ifElse c t e => "(if " ++ dump tab c ++ " " ++ dumpBlk tab t ++ " " ++ dumpBlk tab e ++ ")"
   | .matchE m cs => "(match " ++ dump tab m ++ dumpCases tab cs ++ ")"
   | .lambda k b => (ent tab k).pre ++ dump tab b ++ (ent tab k).suf
 partial def dumpArgs (tab : Tab) : Args → String
   | .one e => " " ++ dump tab e
   | .cons e rest => " " ++ dump tab e ++ dumpArgs tab rest
+partial def dumpBlk (tab : Tab) : Blk → String
+  | .fin ss e => "(block" ++ dumpStmts tab ss ++ " (final " ++ dump tab e ++ "))"
+  | .noFin ss => "(block" ++ dumpStmts tab ss ++ ")"
+partial def dumpStmts (tab : Tab) : Stmts → String
+  | .nil => ""
+  | .letS k e rest => " " ++ (ent tab k).pre ++ dump tab e ++ (ent tab k).suf ++ dumpStmts tab rest
+  | .exprS e rest => " (stmt " ++ dump tab e ++ ")" ++ dumpStmts tab rest
 partial def dumpCases (tab : Tab) : Cases → String
   | .one k b => " (case " ++ (ent tab k).pre ++ " " ++ dump tab b ++ ")"
   | .cons k b rest => " (case " ++ (ent tab k).pre ++ " " ++ dump tab b ++ ")" ++ dumpCases tab rest
@@ -205,7 +308,7 @@ def stepE (text : String) : String :=
           | some e2 => dump tab2 e2
       -- the proved prediction of the re-parsed tree (`roundtrip_expr_total`)
       let predicted := dump tab (regroup e)
-      let main3 := s!"{dump tab e};{outText};{t1}"
+      let main3 := s!"{dump tab e};{outText.replace ";" "SEMI"};{t1}"
       let rt := regroup e == e
       -- the round-2 model (`Model/Fmt.lean`, kept for C09b / C13b) on the same text, where its lexer applies
       let legacy := Driver.C08Legacy.stepE text
@@ -229,10 +332,12 @@ def stepS (text : String) : String :=
     s!"(s {hexOfString (String.ofList lit)});{String.ofList printed};{t1};rt=1"
   | _ => "perr"
 
+
 def step (_ : Unit) (line : String) : Unit × String :=
   match words line with
   | ["E", _, h] => ((), stepE (textOfHex h))
   | ["S", _, h] => ((), stepS (textOfHex h))
+  | ["P", _, h] => ((), stepP (textOfHex h))
   | _ => ((), "bad-op")
 
 def run : IO Unit := runLoop () step
